@@ -19,6 +19,11 @@
    Digest quoting rule), parse_options_header with RFC 2231 charset values and continuations, HeaderSet as a
    case-insensitively de-duplicated list; the same three bindings (TLC laws, export replay, judged real round
    trips with drift) under the codec names cachecontrol, basic, authparam, options2231.
+5. Histories with aliasing (Aliasing.tla: a parser that memoises a shared mutable result violates Independent): for every
+   parser of the family that returns a container (also parse_cookie and parse_accept_header) the same text is parsed
+   twice, the first result is mutated (add / remove / change / clear) and the text parsed again, other texts are parsed
+   and mutated in between, the value is dumped twice and mutated before a further dump; every such parse call is a
+   "hist" line and must still return the value of its text (clauses HistRaised / HistIndependence).
 """
 from __future__ import annotations
 
@@ -72,6 +77,38 @@ def judge_cases(ctx: Ctx, cases, kind="c06"):
         obs = {"dumped": _text(ln["dumped"]), "parsed": ln["parsed"], "redumped": _text(ln["redumped"]), "reparsed": ln["reparsed"],
                "err": ln["err"], "err2": ln["err2"]}
         ctx.violation(f"{r['clause']}:{ln['codec']}", r["clause"], {"case": case, "observed": obs}, kind=kind)
+    return lines
+
+
+def _run_hist_chunk(chunk):
+    return hc.run_histories(chunk)
+
+
+def judge_histories(ctx: Ctx, hcases, kind="c06hist"):
+    """Histories with aliasing: every parse call of a history is one "hist" line (same trace id), judged by TLC."""
+    chunks = [hcases[i:i + 100] for i in range(0, len(hcases), 100)]
+    recs = pmap(_run_hist_chunk, chunks, workers=min(ctx.workers, 8), chunksize=1) if len(chunks) > 4 else [_run_hist_chunk(c) for c in chunks]
+    lines, t = [], 0
+    for chunk in recs:
+        for hl in chunk:
+            for i, ln in enumerate(hl):
+                ln["t"], ln["i"] = t, i
+                lines.append(ln)
+                if ln["hk"] in ("parse-mutate-parse", "dump-mutate-dump") and ln["err"] == "":
+                    ctx.nontrivial.add(("hist", ln["codec"], ln["hk"], tuple(ln["dumped"])))
+            t += 1
+    ctx.count(len(lines))
+    if lines:
+        ln = lines[min(len(lines) - 1, 1)]
+        ctx.sample({"op": "hist", "codec": ln["codec"], "step": ln["hk"], "text": _text(ln["dumped"]), "parsed": json.dumps(ln["parsed"])[:200]}, limit=12)
+    at = {(ln["t"], ln["i"]): ln for ln in lines}
+    for r in ctx.judge(AREA, "HeaderCodecTrace", lines, batch=2500):
+        ln = at[(r["t"], r["i"])]
+        case = hcases[r["t"]]
+        if r["clause"] == "OutOfDomain":
+            raise MachineryError(f"history driver produced a value outside the judged domain: {ln['hk']} {json.dumps(case)[:400]}")
+        obs = {"step": ln["hk"], "text": _text(ln["dumped"]), "expected": ln["v"], "parsed": ln["parsed"], "err": ln["err"]}
+        ctx.violation(f"{r['clause']}/{ln['hk']}:{ln['codec']}", r["clause"], {"case": case, "observed": obs}, kind=kind)
     return lines
 
 
@@ -156,10 +193,28 @@ def run(ctx: Ctx):
         by[(c["op"], c["codec"])] = by.get((c["op"], c["codec"]), 0) + 1
     ctx.notes["cases_by_op_codec"] = {f"{o}:{c}": k for (o, c), k in sorted(by.items())}
     judge_cases(ctx, cases)
+    # 5. histories with aliasing: parse twice / mutate the returned container and parse again / parse after other texts /
+    #    dump twice / mutate the value and dump again (Aliasing.tla: a memoising parser violates Independent)
+    ctx.model_check(AREA, "Aliasing", "MCA_fresh", timeout=300, workers=1)
+    r = tlc.run_tlc(AREA, "Aliasing", "MCA_memo", workers=1, tmp=ctx.tmp, allow_violation=True, timeout=300)
+    ctx.notes["memoising_parser_model_violates"] = r.invariant_violated
+    if not r.invariant_violated:
+        raise MachineryError("the memoising-parser model no longer violates Independent (vacuity)")
+    hcases = []
+    for codec in hc.HIST_CODECS:
+        for _ in range(40 if q else 1500):
+            hcases.append(hc.history_case(rng, codec))
+    ctx.notes["histories"] = len(hcases)
+    judge_histories(ctx, hcases)
 
 
 def replay(ctx: Ctx, data):
     case = data["case"]["case"]
+    if case.get("op") == "hist":
+        ctx.sample({"replayed": json.dumps(case)[:300]})
+        judge_histories(ctx, [case], kind=data.get("kind", "c06hist"))
+        ctx.nontrivial.update({("replay", 0), ("replay", 1)})
+        return
     ctx.sample({"replayed": json.dumps(case)[:300]})
     judge_cases(ctx, [case], kind=data.get("kind", "c06"))
     ctx.nontrivial.update({("replay", 0), ("replay", 1)})
